@@ -78,7 +78,8 @@ def head_rule(ctx, crate, b):
     for bi, si in b.defs.get(flag[1], []):
         v = mir.const_bool(b.def_expr(bi, si))
         if v is True:
-            facts = dom_facts(b, bi)
+            from ..etag import derived_facts
+            facts = derived_facts(b, [(strip_sites(a_), v_) for a_, v_ in dom_facts(b, bi)], with_dom=True)
             in_loop = any(bi in blocks for h, blocks in b.loops().items())
             if not in_loop:
                 ctx.ob("R17-1", b.path, "flag initially true (first word is a command word)", True, crate=crate.kind,
@@ -112,11 +113,16 @@ def head_rule(ctx, crate, b):
     from ..etag import norm_guard
     back = {(x, y) for x, y in b.back_edges() if y == h}
 
-    def relevant(atom):
+    def relevant(atom, depth=0):
         if atom == flag:
             return True
         g = norm_guard(atom, True)
-        return g is not None and g[0] == "eq" and g[2] in ("|", "xargs")
+        if g is not None and g[0] == "eq" and g[2] in ("|", "xargs"):
+            return True
+        # a bool computed from such a test (`is_stage_separator(sep, text)` spliced in, `let is_pipe = ..`)
+        a_ = strip_sites(atom)
+        return depth < 2 and a_[0] == "var" and b.locals[a_[1]]["ty"] == "bool" and a_[1] != flag[1] and any(
+            relevant(e, depth + 1) for e in mir.bool_sources(b, a_[1]))
 
     w = FactWalker(b, relevant, cut_back_edges=False)
     bad = []
@@ -128,7 +134,8 @@ def head_rule(ctx, crate, b):
                 continue
             if (bb, nb) in back:
                 fd = {}
-                for a, v in f2:
+                from ..etag import derived_facts
+                for a, v in derived_facts(b, [x_ for x_ in f2 if isinstance(x_, tuple) and len(x_) == 2], with_dom=True):
                     if a == flag:
                         fd["flag"] = v
                     else:
@@ -423,10 +430,16 @@ def exact_guard_rule(ctx, crate, b):
         for a, v in dom_facts(b, bb):
             a2 = strip_sites(a)
             txt = render(a2)
-            if a2[0] == "discr" and ("Iter::next" in txt or "get_alias_content" in txt or "Shell::get(" in txt):
+            if a2[0] == "discr" and ("Iter::next" in txt or "Enumerate::next" in txt or "get_alias_content" in txt or
+                                     "Shell::get(" in txt):
                 continue
             if a2[0] in ("var", "param") and b.locals[a2[1]]["ty"] == "bool" and v is True:
                 continue                                        # the head-of-stage flag
+            if a2[0] == "var" and b.locals[a2[1]]["ty"] == "bool" and a2[1] not in b.names and all(
+                    mir.const_bool(e) is not None or (e[0] == "call" and last_seg(e[1]) in ("eq", "ne", "is_empty") and (
+                        last_seg(e[1]) == "is_empty" or any(mir.const_str(x) in ("|", "xargs", "") for x in mir.subexprs(e))))
+                    for e in mir.bool_sources(b, a2[1])):
+                continue                                        # the `|` / xargs / tag tests, computed by a helper
             if a2[0] == "call" and last_seg(a2[1]) in ("is_alias", "get_alias_content", "contains_key") and v is True and \
                     "aliases" in txt or (a2[0] == "call" and last_seg(a2[1]) == "is_alias" and v is True):
                 continue
